@@ -66,8 +66,7 @@ theorem C01_build_decode (ext : Ext) (fields : List Field) (rows : List SVal) (a
     | ok r0 => exact ⟨r0, rfl⟩
   obtain ⟨root0, h0⟩ := h0
   have hs0 := hsafe root0 h0
-  obtain ⟨hw, _, _, _⟩ := runRows_rows ext fields rows root0 root h0 hs0
-    (fun x hx => Build.noRaw_rawOK x (hraw x hx)) hrun
+  obtain ⟨hw, _, _, _⟩ := runRows_rows ext fields rows root0 root h0 hs0 hrun
   obtain ⟨hall, hcols, p, fs, cached, next, seen, rfl, hdec⟩ :=
     runRows_interp ext fields rows root0 root hcov h0 hs0 hraw hrun
   have hfacts := Props.C03.root_facts ext fields rows _ hmap hschema (Build.push_takeRest ext) hw
